@@ -19,7 +19,7 @@ import numpy
 
 from .. import paramworld as PW
 from ..history import History, canon, digest
-from ..rng import Streams, chance, pick, weighted
+from ..rng import Streams, chance, pick, weighted, steps
 from . import Result
 
 from openfisca_core import periods
@@ -149,8 +149,11 @@ def c06_generate(seed: int, tier: str) -> dict:
     orr = st["ops"]
     dates = {tuple(p): sorted(d for d, v in vals if v != "expected") for p, vals in leaves}
     ops = []
-    for _ in range(orr.randint(2, 8 if tier == "quick" else 16)):
-        path, _vals = pick(orr, leaves)
+    n_updates = steps(orr, 2, 8 if tier == "quick" else 16, factor=5)
+    # a long history is the history of *one* parameter, mostly (yearly indexations ...)
+    focus = pick(orr, leaves) if n_updates > 16 else None
+    for _ in range(n_updates):
+        path, _vals = focus if focus is not None and chance(orr, 0.85) else pick(orr, leaves)
         path = tuple(path)
         rg = gen_range(orr, dates[path], era)
         if path[-1] == "threshold":
@@ -493,7 +496,7 @@ def c07_generate(seed: int, tier: str) -> dict:
     hot = None
     recent_reads = []
     pool = [PW.rand_date(orr, 2009, 2020) for _ in range(3)]
-    n_ops = orr.randint(5, 12 if tier == "quick" else 24)
+    n_ops = steps(orr, 5, 12 if tier == "quick" else 24)
     for _ in range(n_ops):
         r = orr.random()
         if r < 0.22:
